@@ -391,7 +391,17 @@ fn strip_dbg(d: &str) -> Option<String> {
     Some(format!("{}{}", &d[..a], &d[b..]))
 }
 
+thread_local! {
+    /// explicit metric-length alphabet (for capacities too large to enumerate every length)
+    pub static LENS: RefCell<Option<Vec<usize>>> = const { RefCell::new(None) };
+}
+
 fn alphabet(cap: usize, end: &str) -> Vec<Op> {
+    if let Some(l) = LENS.with(|l| l.borrow().clone()) {
+        let mut ops: Vec<Op> = l.into_iter().filter(|l| !(*l == 0 && end.is_empty())).map(|l| Op::Emit(l, vec![])).collect();
+        ops.push(Op::Flush(vec![]));
+        return ops;
+    }
     let mut ops: Vec<Op> = (0..=cap + 2)
         .filter(|l| !(*l == 0 && end.is_empty()))
         .map(|l| Op::Emit(l, vec![]))
